@@ -19,7 +19,7 @@ for p in mutants/*.patch; do
     neutral-c10-*) run "/verif/$p" C10 0;; neutral-c11-*) run "/verif/$p" C11 0;; neutral-c12-*) run "/verif/$p" C12 0; run "/verif/$p" C11 0;; neutral-c14-*) run "/verif/$p" C14 0;; neutral-c18-*) run "/verif/$p" C18 0;;
     c14-rbuf-reused) run "/verif/$p" C14 0;;
     revert-F1) run "/verif/$p" C10 1;; revert-F2) run "/verif/$p" C11 1; run "/verif/$p" C12 1;; revert-F3) run "/verif/$p" C18 1;; revert-F4) run "/verif/$p" C08 1;;
-    c10-*) run "/verif/$p" C10 1;; c13-*) run "/verif/$p" C13 1;; c14-*) run "/verif/$p" C14 1;;
+    c10-*) run "/verif/$p" C10 1;; c11-*) run "/verif/$p" C11 1;; c13-*) run "/verif/$p" C13 1;; c14-*) run "/verif/$p" C14 1;;
   esac
 done
 exit $bad
